@@ -173,7 +173,7 @@ func CSSToken(r *rand.Rand) CSSTok {
 	case 15:
 		return CSSTok{"Percentage", cssNumber(r) + "%"}
 	case 16, 17:
-		unit := Pick(r, []string{"px", "em", "ex", "rem", "x", "deg", "s", "-x", "--y", "_", "é", "\\70x", "Q", "dpi", "n", "n-1"})
+		unit := Pick(r, []string{"px", "em", "ex", "rem", "x", "deg", "s", "-x", "--y", "_", "é", "\\70x", "Q", "dpi", "n", "n-1", "e", "E", "e-", "e-x", "e_"})
 		return CSSTok{"Dimension", cssNumber(r) + unit}
 	case 18:
 		hex := func(n int) string {
@@ -258,6 +258,16 @@ func CSSSequence(r *rand.Rand, n int) (src string, toks []CSSTok) {
 		t := CSSToken(r)
 		if len(toks) > 0 {
 			p := toks[len(toks)-1]
+			if (p.Kind == "Dimension" || p.Kind == "Number") && t.Kind != "Delim" && r.Intn(4) == 0 {
+				// a '+' that is not followed by a digit is a delimiter directly behind a number or a unit, also behind the
+				// unit "e" (1e+x: no exponent)
+				add(CSSTok{"Delim", "+"})
+				p = toks[len(toks)-1]
+				if t.Kind == "Number" || t.Kind == "Dimension" || t.Kind == "Percentage" {
+					add(CSSTok{"Whitespace", " "})
+					p = toks[len(toks)-1]
+				}
+			}
 			need := !(cssSafeEnd(p.Kind) || cssSafeStart(t.Kind) || t.Kind == "Whitespace" && p.Kind != "Whitespace" || p.Kind == "Whitespace" && t.Kind != "Whitespace")
 			if p.Kind == "Whitespace" && t.Kind == "Whitespace" {
 				need = true
